@@ -164,7 +164,14 @@ def one_program(ctx, prog, rng):
         return
     # ---- the normal form is a fixed point -----------------------------------------------------------
     named_lhs = {e.lhs.name for e in prog.equations() if e.has(gen.Named) or e.has(gen.Verb)}
-    for s in base:
+    # ... whatever layout the normal form was produced from: the canonical rendering and the broken-inside-parentheses ones
+    pool = list(base)
+    for lay_kw in (dict(noise=0.0, breaks=1.0, comments=0.5), dict(noise=0.6, breaks=0.7, inner_p=0.5)):
+        try:
+            pool += fsic.parse_model(gen.render_program(paren_break(prog), gen.Layout(rng, **lay_kw)))
+        except parser_errors():
+            pass
+    for s in pool:
         if s.type.name != 'ENDOGENOUS' or s.equation is None or s.name in named_lhs or '`' in s.equation:
             continue
         text = to_script_indexes(s.equation)
